@@ -391,8 +391,11 @@ pub fn procmsg_stream(seed: u64, cases: usize, ex: &mut ChildExec) -> Sink {
         // (picky: refuses data starting with 0xee with a custom error, hashes everything else)
         // … or two hashers answering for 0x96: the older one always, the newer one (consulted first) declines data
         // starting with 0xee with "unknown code" — which hasher is asked must be decided block by block
-        let spec = match rng.below(4) { 0 | 1 => "", 2 => "153:o,152:c,151:f,150:p", _ => "150:o;153:o,152:c,151:f,150:q" };
+        // … or a registered hasher that takes over sha2-256 (code 0x12 = 18) from the built-in table and refuses
+        // every block: sha2-256 blocks — CIDv1 and the CIDv0 form alike — are then skipped, the others applied
+        let spec = match rng.below(5) { 0 | 1 => "", 2 => "153:o,152:c,151:f,150:p", 3 => "150:o;153:o,152:c,151:f,150:q", _ => "18:c,153:o,152:c,151:f" };
         let newest = if spec.contains(';') { 2 } else { 1 };
+        let sha_refused = spec.starts_with("18:c");
         let mut base = Message::default();
         let mut exp_blocks: Vec<(CidGeneric<64>, Vec<u8>)> = vec![];
         let mut exp_pres: Vec<(CidGeneric<64>, i32)> = vec![];
@@ -401,8 +404,21 @@ pub fn procmsg_stream(seed: u64, cases: usize, ex: &mut ChildExec) -> Sink {
             // sha2-512 does not fit S = 32: only used with S = 64
             let code = *rng.pick(&[0x12u64, 0x12, 0x16, 0x1e]);
             let (b, cid) = good_block(&mut rng, code);
-            exp_blocks.push((cid, b.data.clone()));
+            if !(sha_refused && code == 0x12) {
+                exp_blocks.push((cid, b.data.clone()));
+            }
             base.payload.push(b);
+        }
+        if rng.chance(1, 3) {
+            // a block in the CIDv0 form (prefix 0x12 0x20): hashed through the table like any other
+            let n = *rng.pick(&[1usize, 4, 20]);
+            let data = rng.bytes(n);
+            let cid = CidGeneric::<64>::new_v0(Code::Sha2_256.digest(&data)).unwrap();
+            if !sha_refused {
+                exp_blocks.push((cid, data.clone()));
+            }
+            base.payload.push(Block { prefix: vec![0x12, 0x20], data });
+            sink.count("procmsg.cidv0-block");
         }
         if !spec.is_empty() && rng.chance(1, 2) {
             // a block whose CID is produced by the registered hasher (index 1, see cidexec::Scripted)
@@ -412,7 +428,7 @@ pub fn procmsg_stream(seed: u64, cases: usize, ex: &mut ChildExec) -> Sink {
             base.payload.push(Block { prefix: [uvarint(1), uvarint(0x55), uvarint(0x99), uvarint(9)].concat(), data });
             sink.count("procmsg.custom-hasher-block");
         }
-        if !spec.is_empty() && rng.chance(1, 2) {
+        if spec.contains("150:") && rng.chance(1, 2) {
             // blocks the picky hasher accepts: a refused block of the same code elsewhere in the
             // message (inserted below at every position) must not hide them
             for _ in 0..1 + rng.below(2) {
@@ -434,7 +450,7 @@ pub fn procmsg_stream(seed: u64, cases: usize, ex: &mut ChildExec) -> Sink {
             base.payload.insert(pos, Block { prefix: [uvarint(1), uvarint(0x55), uvarint(0x96), uvarint(9)].concat(), data });
             sink.count("procmsg.declined-by-newest-hasher");
         }
-        if nb > 0 && rng.chance(1, 5) {
+        if nb > 0 && !sha_refused && rng.chance(1, 5) {
             // duplicate payload inside one message
             let b = base.payload[0].clone();
             exp_blocks.push(exp_blocks[0].clone());
@@ -469,7 +485,7 @@ pub fn procmsg_stream(seed: u64, cases: usize, ex: &mut ChildExec) -> Sink {
         }
         // one bad element at every position
         for pos in 0..=base.payload.len() {
-            let kind = if newest == 1 && !spec.is_empty() && rng.chance(1, 4) { 7 } else { rng.below(7) };
+            let kind = if spec.contains("150:p") && rng.chance(1, 4) { 7 } else { rng.below(7) };
             let mut m = base.clone();
             let (bad, oracle): (Block, String) = match kind {
                 0 => (Block { prefix: [uvarint(1), uvarint(0x55), uvarint(0x77), uvarint(32)].concat(), data: rng.bytes(3) }, base_out.clone()), // unknown code: skipped
